@@ -174,6 +174,40 @@ Theorem C20_toy_crypto_ok : forall norms creds,
   crypto_ok (toy norms creds) /\ b64_strict (toy norms creds) /\ key_sep (toy norms creds).
 Proof. exact (fun n c => conj (toy_crypto_ok n c) (conj (toy_b64_strict n c) (toy_key_sep n c))). Qed.
 
+(** The comparison that decides a login is equality of the computed hash text and the configured text
+    (config_file.rs:236): a configured text of another length never matches, so an entry whose password_hash is
+    empty, cut short or extended admits no password at all. *)
+Theorem C20_hash_matches_iff : forall computed configured,
+  hash_matches computed configured = true <-> computed = configured.
+Proof. exact hash_matches_iff. Qed.
+
+Theorem C20_hash_other_length_never_matches : forall computed configured,
+  String.length computed <> String.length configured -> hash_matches computed configured = false.
+Proof. exact hash_other_length_never_matches. Qed.
+
+Theorem C20_login_ok_iff : forall hash stored c name pw,
+  login_ok hash stored c name pw = true <-> stored c = Some (hash c name pw).
+Proof. exact login_ok_iff. Qed.
+
+Theorem C20_login_ok_other_length : forall hash stored c configured,
+  stored c = Some configured ->
+  (forall name pw, String.length (hash c name pw) = 64%nat) -> String.length configured <> 64%nat ->
+  forall name pw, login_ok hash stored c name pw = false.
+Proof. exact login_ok_other_length. Qed.
+
+Theorem C20_empty_hash_never_matches : forall hash c,
+  (forall name pw, String.length (hash c name pw) = 64%nat) ->
+  forall name pw, login_ok hash (fun _ => Some EmptyString) c name pw = false.
+Proof. exact empty_hash_never_matches. Qed.
+
+Theorem C20_login_refused_for_other_length : forall P hash stored st name pw b d configured,
+  (forall c n p, p_pw_ok P c n p = login_ok hash stored c n p) ->
+  cf_auth (i_cfg st) = ConfigFile ->
+  alookup name (cf_users (i_cfg st)) = Some d -> stored (u_cred d) = Some configured ->
+  (forall n p, String.length (hash (u_cred d) n p) = 64%nat) -> String.length configured <> 64%nat ->
+  forall st' tok id rn, login P st (Some (name, pw)) b <> (st', LOk tok id rn).
+Proof. exact login_refused_for_other_length. Qed.
+
 Print Assumptions C20_authn_shapes_recognised.
 Print Assumptions C20_chain_shapes_recognised.
 Print Assumptions C20_auth_identity.
@@ -196,3 +230,9 @@ Print Assumptions C20_issued_under_own_nonce.
 Print Assumptions C20_nonce_reuse_pinned.
 Print Assumptions C20_nonces_fresh_pinned_refuted.
 Print Assumptions C20_toy_crypto_ok.
+Print Assumptions C20_hash_matches_iff.
+Print Assumptions C20_hash_other_length_never_matches.
+Print Assumptions C20_login_ok_iff.
+Print Assumptions C20_login_ok_other_length.
+Print Assumptions C20_empty_hash_never_matches.
+Print Assumptions C20_login_refused_for_other_length.
